@@ -424,9 +424,15 @@ def oracle(res: CaseResult, claim_zero=True):
     c = res["case"]
     bad = []
     if res["offset_spread"] > 2e-3:
+        v = res.get("losses", {}).get("l2_amplitude", {})
         bad.append(("scan-position-offset",
-                    "library scan positions are not the simulated raster plus a constant integer offset: spread %.4g px "
-                    "(offset %s, object %s, requested padding %s)" % (res["offset_spread"], res["offset"], res["obj_shape"], c["pad"])))
+                    "the library's preprocessing does not keep the raster: its scan positions differ from the simulated raster by a "
+                    "NON-constant offset (spread %.4g px about %s; %.4g px before its hard constraints) for roi %s, scan %s, step %s px, "
+                    "requested padding %s -> object %s, effective padding %s; consequently l2_amplitude at the ground truth = %.4g "
+                    "(perturbed object %.4g, perturbed probe %.4g)" % (
+                        res["offset_spread"], [round(x, 3) for x in res["offset"]], res["offset_spread_preprocess"], c["roi"], c["gpts"],
+                        [round(s, 4) for s in c["step_px"]], c["pad"], res["obj_shape"], res["pad_eff"],
+                        v.get("gt", float("nan")), v.get("pert_obj", float("nan")), v.get("pert_probe", float("nan")))))
         return bad
     if res["pattern_sum_dev"] > 1e-9:
         bad.append(("harness-simulator-not-intensity-conserving", "simulated pattern sums deviate by %.3g" % res["pattern_sum_dev"]))
